@@ -539,10 +539,48 @@ def discrepancies(case):
             else:
                 tag = "missed"
             out.append((tag, "no path reported for %s at %s" % (e.kind, loc_str(e.loc))))
+    if out and reused_anchor(data):
+        # seen_anchors and [&name] segments go by NAME: with a redefined anchor name a different
+        # node passes for an alias, and [&name] names several nodes (known finding)
+        out = [("reusedanchor", m) if t in REPORT_SIDE + ("missed",) else (t, m) for t, m in out]
     return out
 
 
 REPORT_SIDE = ("noresolve", "multi", "twice", "unsound")
+
+
+def reused_anchor(data):
+    """Two different objects carry the same anchor name (YAML lets a later `&x` redefine x)."""
+    owners = {}
+    seen = set()
+
+    def note(x):
+        a = anchor_of(x)
+        if a is not None:
+            owners.setdefault(a, set()).add(id(x))
+
+    def go(x, depth):
+        note(x)
+        if depth > 40:
+            return
+        if is_map(x):
+            if id(x) in seen:
+                return
+            seen.add(id(x))
+            for k, v in x.items():
+                note(k)
+                go(v, depth + 1)
+        elif is_seq(x):
+            if id(x) in seen:
+                return
+            seen.add(id(x))
+            for e in x:
+                go(e, depth + 1)
+        elif is_set(x):
+            for m in x:
+                note(m)
+    go(data, 0)
+    return any(len(v) > 1 for v in owners.values())
 
 
 def unexplained(d):
@@ -588,6 +626,7 @@ FINDING_PREDS = {
     "key_match_prunes_subtree": _finding("prune"),
     "unsafe_key_section": _finding("unsafekey"),
     "scalar_document": _finding("scalarroot"),
+    "reused_anchor_name": _finding("reusedanchor"),
 }
 
 
